@@ -100,6 +100,151 @@ func c01Packet(first gopacket.LayerType, n int) {
 
 C01_SIZES = {}
 
+C06_COMMON = """
+type c06DF struct{ t bool }
+
+func (d *c06DF) SetTruncated() { d.t = true }
+
+var c06Net4 = &IPv4{Version: 4, IHL: 5, SrcIP: net.IP{10, 1, 2, 3}, DstIP: net.IP{10, 4, 5, 6}, Protocol: IPProtocolTCP}
+
+// dirty buffer: previously held other (symbolic) data and was cleared
+func c06DirtyBuffer() gopacket.SerializeBuffer {
+	b := gopacket.NewSerializeBuffer()
+	g1, _ := b.PrependBytes(40)
+	junk := verifBytes("junk", 40)
+	copy(g1, junk)
+	g2, _ := b.AppendBytes(24)
+	junk2 := verifBytes("junk2", 24)
+	copy(g2, junk2)
+	b.Clear()
+	return b
+}
+"""
+
+
+def ser_types(enum):
+    e = enum(MOD + "/layers")["types"]
+    return [x for x in e if x["Decode"] and x["Serialize"] and "DecodeFeedback" in x["DecodeSig"]]
+
+
+def gen_c06(tier, enum):
+    n = 20 if tier == "quick" else 28
+    out = ["package layers", "", 'import (', '\t"bytes"', '\t"net"', "", '\t"github.com/gopacket/gopacket"', ")", "", "var _ = bytes.Equal", C06_COMMON]
+    for x in ser_types(enum):
+        T = x["Name"]
+        nn = C06_SIZES.get(T, {}).get(tier, n)
+        setnet = "\tl.SetNetworkLayerForChecksum(c06Net4)\n" if x["SetNet"] else ""
+        out.append(f"""func verif_C06_rt_{T}() {{
+	in := verifBytes("in", {nn})
+	n := verifInt("n", 0, {nn})
+	var l {T}
+	df := &c06DF{{}}
+	if err := l.DecodeFromBytes(in[:n], df); err != nil {{
+		verifReached("decode-err")
+		return
+	}}
+	if df.t {{
+		verifReached("decode-truncated")
+		return
+	}}
+{setnet}	buf := gopacket.NewSerializeBuffer()
+	pay := l.LayerPayload()
+	pb, _ := buf.AppendBytes(len(pay))
+	copy(pb, pay)
+	if err := l.SerializeTo(buf, gopacket.SerializeOptions{{FixLengths: true, ComputeChecksums: true}}); err != nil {{
+		verifReached("serialize-refused")
+		return
+	}}
+	out := buf.Bytes()
+	var l2 {T}
+	df2 := &c06DF{{}}
+	err := l2.DecodeFromBytes(out, df2)
+	verifAssert(err == nil, "written bytes decode without error")
+	verifAssert(!df2.t, "written bytes decode without truncation flag")
+	verifAssert(bytes.Equal(l2.LayerPayload(), pay), "same payload after the round trip")
+	verifAssert(verifDeepEqual(&l, &l2), "same field values after serialize then decode")
+	verifReached("roundtrip")
+}}
+""")
+    return [("layers", "c06gen.go", "\n".join(out))]
+
+
+def gen_c07(tier, enum):
+    n = 20 if tier == "quick" else 28
+    out = ["package layers", "", 'import (', '\t"bytes"', '\t"net"', "", '\t"github.com/gopacket/gopacket"', ")", "", "var _ = bytes.Equal", C06_COMMON]
+    for x in ser_types(enum):
+        T = x["Name"]
+        nn = C06_SIZES.get(T, {}).get(tier, n)
+        setnet = "\tl.SetNetworkLayerForChecksum(c06Net4)\n" if x["SetNet"] else ""
+        out.append(f"""func verif_C07_ser_{T}() {{
+	in := verifBytes("in", {nn})
+	n := verifInt("n", 0, {nn})
+	var l {T}
+	if err := l.DecodeFromBytes(in[:n], gopacket.NilDecodeFeedback); err != nil {{
+		verifReached("decode-err")
+		return
+	}}
+{setnet}	opts := gopacket.SerializeOptions{{FixLengths: verifChoose(2) == 1, ComputeChecksums: verifChoose(2) == 1}}
+	pay := append([]byte(nil), l.LayerPayload()...)
+	fresh := gopacket.NewSerializeBuffer()
+	pb, _ := fresh.AppendBytes(len(pay))
+	copy(pb, pay)
+	err1 := l.SerializeTo(fresh, opts) // must not panic
+	out1 := append([]byte(nil), fresh.Bytes()...)
+	dirty := c06DirtyBuffer()
+	pb2, _ := dirty.AppendBytes(len(pay))
+	copy(pb2, pay)
+	err2 := l.SerializeTo(dirty, opts)
+	verifAssert((err1 == nil) == (err2 == nil), "same outcome on a fresh and on a dirty buffer")
+	if err1 == nil && err2 == nil {{
+		verifAssert(bytes.Equal(out1, dirty.Bytes()), "same bytes on a fresh and on a previously used buffer")
+		// writing the same layer again gives the same bytes
+		again := gopacket.NewSerializeBufferExpectedSize(verifInt("hp", 0, 2), verifInt("ha", 0, 2))
+		pb3, _ := again.AppendBytes(len(pay))
+		copy(pb3, pay)
+		err3 := l.SerializeTo(again, opts)
+		verifAssert(err3 == nil, "repeated serialization succeeds")
+		verifAssert(bytes.Equal(out1, again.Bytes()), "repeated serialization gives the same bytes")
+	}}
+	verifReached("serialized")
+}}
+""")
+    return [("layers", "c07gen.go", "\n".join(out))]
+
+
+C06_SIZES = {}
+
+C05_CORE = ["Ethernet", "Dot1Q", "IPv4", "IPv6", "TCP", "UDP", "ICMPv4", "ICMPv6", "GRE", "ARP"]
+
+
+def gen_c05(tier, enum):
+    e = [x for x in enum(MOD + "/layers")["types"] if x["Decode"] and "DecodeFeedback" in x["DecodeSig"]]
+    n = 20 if tier == "quick" else 28
+    out = ["package layers", "", 'import "github.com/gopacket/gopacket"', "", "var _ = gopacket.NilDecodeFeedback", ""]
+    for x in e:
+        T = x["Name"]
+        if tier == "quick" and T not in C05_CORE:
+            continue
+        out.append(f"""func verif_C05_stale_{T}() {{
+	a := verifBytes("a", {n})
+	na := verifInt("na", 0, {n})
+	b := verifBytes("b", {n})
+	nb := verifInt("nb", 0, {n})
+	var l, f {T}
+	_ = l.DecodeFromBytes(a[:na], gopacket.NilDecodeFeedback)
+	d1, d2 := &c05DF{{}}, &c05DF{{}}
+	e1 := l.DecodeFromBytes(b[:nb], d1)
+	e2 := f.DecodeFromBytes(b[:nb], d2)
+	verifAssert((e1 == nil) == (e2 == nil), "same outcome as decoding into a fresh object")
+	if e1 == nil && e2 == nil {{
+		verifAssert(d1.t == d2.t, "same truncation flag as a fresh object")
+		verifAssert(verifDeepEqual(&l, &f), "same field values as decoding into a fresh object")
+	}}
+	verifReached("stale")
+}}
+""")
+    return [("layers", "c05gen.go", "\n".join(out))]
+
 # per-type input bound overrides (units whose path count explodes)
 C19_SIZES = {}
 
@@ -124,6 +269,31 @@ PROPS = {
         "outside": "String()/Dump() text (fmt/reflect not interpreted; they read only data, metadata and layers, which are compared); real decoders are compared in the layers harness of C05/C01; assumption checked by C01: decoders call NextDecoder in tail position after adding a layer",
         "quick": {"timeout": 1200, "units": "verif_C03_core2", "params": "verif_C03_core.*:b0=0..14,opt=0..4"},
         "thorough": {"timeout": 3000, "params": "verif_C03_core.*:b0=0..14,opt=0..4"},
+    },
+    "C05": {
+        "pkgs": [MOD + "/layers"],
+        "static": [("layers", "c05.go")],
+        "generate": gen_c05,
+        "bounds": "parser vs NewPacket: Ethernet/Dot1Q/IPv4/IPv6/TCP/UDP/Payload layers in a map, sparse or array container, first layer IPv4 or IPv6 (Ethernet in thorough), input of every length up to 32 (quick, step 4) symbolic bytes; stale state: each DecodingLayer type (10 core types quick, all thorough) decodes symbolic packet a (0..20/28 bytes) then symbolic packet b into the same object, compared with decoding b into a fresh object",
+        "outside": "custom containers, longer inputs, sequences of more than two packets",
+        "quick": {"timeout": 1200, "maxpaths": 2500, "partial_ok_all": True, "unsupported_ok": True, "params": "verif_C05_parser_ip4:n=20..28/4;verif_C05_parser_ip6:n=40..44/4;verif_C05_parser_eth:n=14..14", "units": "verif_C05_(stale_.*|parser_ip4|parser_ip6)"},
+        "thorough": {"timeout": 3000, "maxpaths": 30000, "partial_ok_all": True, "unsupported_ok": True, "params": "verif_C05_parser_ip4:n=20..40/2;verif_C05_parser_ip6:n=40..56/2;verif_C05_parser_eth:n=34..46/4"},
+    },
+    "C06": {
+        "pkgs": [MOD + "/layers"],
+        "generate": gen_c06,
+        "bounds": "every type with both DecodeFromBytes and SerializeTo: layer obtained by decoding n symbolic bytes (n symbolic in 0..20 quick / 0..28 thorough, i.e. fixed header plus a few option/TLV bytes plus payload), written over its payload with FixLengths and ComputeChecksums, decoded again; compared: all exported fields (lists element-wise in order), payload, error, truncation flag",
+        "outside": "layers built from in-range field values rather than by decoding; stacks through SerializeLayers; payloads > 64 KiB",
+        "quick": {"timeout": 1200, "maxpaths": 1500, "partial_ok_all": True, "unsupported_ok": True},
+        "thorough": {"timeout": 3000, "maxpaths": 30000, "partial_ok_all": True, "unsupported_ok": True},
+    },
+    "C07": {
+        "pkgs": [MOD + "/layers"],
+        "generate": gen_c07,
+        "bounds": "every type with both DecodeFromBytes and SerializeTo: layer decoded from n symbolic bytes (n in 0..20 quick / 0..28 thorough), all four FixLengths/ComputeChecksums combinations; serialized into a fresh buffer, a buffer that held 64 symbolic garbage bytes and was cleared, and a pre-sized buffer; outputs compared bytewise",
+        "outside": "layer values built through public fields without decoding",
+        "quick": {"timeout": 1200, "maxpaths": 1500, "partial_ok_all": True, "unsupported_ok": True},
+        "thorough": {"timeout": 3000, "maxpaths": 30000, "partial_ok_all": True, "unsupported_ok": True},
     },
     "C08": {
         "pkgs": [MOD],
